@@ -4,6 +4,7 @@ import (
 	"os"
 	"testing"
 
+	hookconfig "github.com/flant/shell-operator/pkg/hook/config"
 	objectpatch "github.com/flant/shell-operator/pkg/kube/object_patch"
 )
 
@@ -13,6 +14,11 @@ import (
 func TestMain(m *testing.M) {
 	for name := range objectpatch.Schemas {
 		objectpatch.GetSchema(name)
+	}
+	// the hook configuration schemas are cached the same way (pkg/hook/config is instrumented since
+	// round 2: a first load executes yield points that later loads do not)
+	for name := range hookconfig.Schemas {
+		hookconfig.GetSchema(name)
 	}
 	os.Exit(m.Run())
 }
